@@ -854,6 +854,55 @@ def basis_stage(ctx, only=None):
         ctx.sample(c[2][:300])
 
 
+def unit_spline_stage(ctx, n_quick=60, n_thorough=400):
+    """THE BASIS READ THROUGH THE SPLINE'S OWN EVALUATION ENTRY POINTS: a spline whose coefficients are a unit vector e_i (or
+    all ones) evaluated with ppdnev_single / ppdnev_single_dual / ppdnev_single_dual2 / mapped_value at EVERY distinct knot,
+    both end points and a point between, for every derivative order 0..k - value = B_i^(m)(x+), slope carried by a Dual
+    abscissa = B_i^(m+1), curvature = B_i^(m+2): the orders at which an interior knot of multiplicity r shows (m >= k - r)
+    are all asked.  Coefficient kinds f64, Dual, Dual2.  Standard comparison with the model (compare_case)."""
+    rng = random.Random(ctx.seed * 2750159 + 17)
+    th = ctx.tier == "thorough"
+    cases = []
+    for q in range(n_thorough if th else n_quick):
+        k = 1 + q % 5 if q < 10 else rng.randint(1, 5)
+        t = gen_layout(rng, k)[0] if k >= 2 else gen_knots(rng, k)
+        n = len(t) - k
+        if n < 1:
+            continue
+        kind = rng.choice(["f64", "f64", "dual", "dual2"])
+        i = rng.randrange(n)
+        vals = [1.0] * n if rng.random() < 0.25 else [1.0 if j == i else 0.0 for j in range(n)]
+        if kind == "f64":
+            cv = vals
+        elif kind == "dual":
+            cv = [(v, ["c%d" % j], [1.0]) if rng.random() < 0.5 else (v, [], []) for j, v in enumerate(vals)]
+        else:
+            cv = [(v, ["c%d" % j], [1.0], [[0.0]]) if rng.random() < 0.5 else (v, [], [], []) for j, v in enumerate(vals)]
+        pts = sorted(set(t))
+        pts = pts + [(a + b) / 2 for a, b in zip(pts, pts[1:])][:2]
+        qs = []
+        for x in pts:
+            for m in range(0, k + 1):
+                r = rng.random()
+                if r < 0.25:
+                    qs.append(("f", x, m))
+                elif r < 0.6:
+                    qs.append(("d", (x, ["x"], [1.0]), m))
+                elif r < 0.9:
+                    qs.append(("d2", (x, ["x"], [1.0], [[0.0]]), m))
+                elif m == 0:
+                    qs.append(("n", rng.choice([("dual", (x, ["x"], [1.0])), ("dual2", (x, ["x"], [1.0], [[0.0]])), ("f64", x)])))
+        cases.append({"kind": kind, "k": k, "t": t, "label": "unit coefficients", "scale": ("unit", 0.0, 1.0), "c": cv,
+                      "variant": "preset-c", "queries": qs})
+    enc = [enc_case(c) for c in cases]
+    impl = run_harness("spline", [hline(z) for z in enc])
+    model = coq_eval("Run.RunSpline", "runSpline", enc, ctx.work, shard=max(1, min(20, len(enc) // (NCPU * 2) + 1)), tag="unit")
+    stats = {"bit_equal": 0, "bit_differs": 0, "nan_both": 0, "zero_sign": 0, "poly_checked": 0, "poly_off": 0}
+    for ci, (c, a, b) in enumerate(zip(cases, impl, model)):
+        ctx.count("unit-coefficient splines evaluated at every knot, m = 0..k: coefficient kind " + c["kind"])
+        compare_case(ctx, ("unit", ci), c, a, b, stats)
+
+
 def run(ctx):
     ctx.rule = ("orders 2-6; knot vectors with k-fold end knots and 0-5 interior breakpoints (multiplicity 1..k-1); "
                 "data sites: Greville sites jittered inside the Schoenberg-Whitney windows (end sites on the end "
@@ -901,6 +950,7 @@ def run(ctx):
     for ci, (c, a, b) in enumerate(zip(cases, impl, model)):
         compare_case(ctx, ci, c, a, b, stats)
     basis_stage(ctx)
+    unit_spline_stage(ctx)
     for k, v in stats.items():
         ctx.count("result:" + k, v)
     ctx.notes.append("floats bit-identical: %d; differing in bits but within 1e-9: %d; polynomial data: %d f64 "
